@@ -217,6 +217,70 @@ Theorem C09_stripped_is_flop_run : ∀ C d q ign ru CS sio st ins t n,
 Proof. exact stripped_is_flop_run. Qed.
 Print Assumptions C09_stripped_is_flop_run.
 
+(* --- C09, sequential clause, about the model and the FLOP CIRCUIT ITSELF: inside the guards sequential_unroll RETURNS; its io map has the
+   D and Q pin of every flop under the flattened name and no other pin (ignored or not); every consistent valuation of the result carries
+   at io_map[ρ x][t] the value of node x of the flop circuit in cycle t of the cycle-accurate simulation `flop_run` (state = Q pins, next
+   state = D pins) started from the values of the step-0 Q nodes, which are free inputs or the given constants (None / '0' / '1' / 'x' /
+   per-flop dict); the flop data outputs are outputs exactly when add_flop_outputs, all other outputs are the per-step copies of the
+   stripped circuit's outputs.  Guards: those of C09_unroll on the stripped circuit CS (`lint_clean CS` excludes a LOADED non-D/Q output
+   pin, whose buffer is left undriven -- coordinator's decision: guard, see docs/C09.md), `flop_names_ok`, `flop_wiring_ok`, D / Q not
+   ignored, dict keys are instances and distinct. --- *)
+Theorem C09_sequential_unroll_full : ∀ C n d q ign afo iv ru prefix CS sio,
+  seq_stripped C d q ign ru = Ok (CS, sio) →
+  lint_clean C → closed (c_g C) → acyclic (c_g C) → flop_names_ok C → flop_wiring_ok C q → d ∉ ign → q ∉ ign →
+  lint_clean CS → c_bbs CS = ∅ → closed (c_g CS) → acyclic (c_g CS) → plain (c_g CS) → valid_names (c_g CS) → free_are_inputs (c_g CS) →
+  1 ≤ n → sio_ok (c_g CS) sio → unroll_names_ok (c_g CS) n sio prefix → iv_ok C iv → iv_addable iv → iv_nodup iv →
+  let ρ := pin_rho (kept_pins (c_g C) ign) in
+  ∃ U m, sequential_unroll C n d q ign afo iv ru prefix = Ok (U, m) ∧ dom m = io_of (c_g CS) ∧
+    (∀ b, b ∈ dom (c_bbs C) → ρ (Api.pin b d) = pre b d ∧ ρ (Api.pin b q) = pre b q ∧ pre b d ∈ dom m ∧ pre b q ∈ dom m) ∧
+    (∀ b bb p, c_bbs C !! b = Some bb → p ∈ bb_pinset bb → p ≠ d → p ≠ q → pre b p ∉ dom m) ∧
+    (∀ w, consistent (c_g U) w →
+      let st := λ v, w (io_name (ρ v) prefix 0) in
+      let ins := λ t i, w (io_name (ρ i) prefix t) in
+      ∀ x t, x ∈ dom (c_g C) → ρ x ∈ dom m → t < n →
+        m !! ρ x ≫= (.!! t) = Some (io_name (ρ x) prefix t) ∧ w (io_name (ρ x) prefix t) = flop_run C d q t st ins x) ∧
+    (∀ b, b ∈ dom (c_bbs C) → ty (c_g U) (io_name (pre b q) prefix 0) = Some (default Input (init_of iv b))) ∧
+    (∀ w, consistent (c_g U) w → ∀ b, b ∈ dom (c_bbs C) →
+       (init_of iv b = Some C0 → w (io_name (pre b q) prefix 0) = false) ∧ (init_of iv b = Some C1 → w (io_name (pre b q) prefix 0) = true)) ∧
+    (∀ b t, b ∈ dom (c_bbs C) → t < n → io_name (pre b d) prefix t ∈ outputs (c_g U) ↔ afo = true) ∧
+    (∀ x, (∀ b t, b ∈ dom (c_bbs C) → t < n → x ≠ io_name (pre b d) prefix t) →
+       x ∈ outputs (c_g U) ↔ ∃ t o, t < n ∧ o ∈ outputs (c_g CS) ∧ x = io_name o prefix t).
+Proof. exact seq_flop_full. Qed.
+Print Assumptions C09_sequential_unroll_full.
+
+(* --- non-vacuity of the sequential clause: a toggle flop  o = a xor q,  ff.d <- o,  clocked by clk; two steps from q = 0 --- *)
+Definition ex_fg : circuit :=
+  {[ "a" := mk_node Input false ∅ ]} ∪ {[ "clk" := mk_node Input false ∅ ]} ∪
+  {[ "ff.clk" := mk_node BbIn false {[ "clk" ]} ]} ∪ {[ "ff.d" := mk_node BbIn false {[ "o" ]} ]} ∪
+  {[ "ff.q" := mk_node BbOut false ∅ ]} ∪ {[ "qb" := mk_node Buf false {[ "ff.q" ]} ]} ∪
+  {[ "o" := mk_node Xor true {[ "a"; "qb" ]} ]}.
+Definition ex_F := {| c_name := "f"; c_g := ex_fg; c_bbs := {[ "ff" := {| bb_name := "dff"; bb_in := {[ "clk"; "d" ]}; bb_out := {[ "q" ]} |} ]} |}.
+Definition ex_CS : Circuit * list (string * string) := match seq_stripped ex_F "d" "q" [] true with Ok r => r | _ => (ex_F, []) end.
+Example C09_ex_seq_stripped : seq_stripped ex_F "d" "q" [] true = Ok ex_CS ∧ size (c_g ex_CS.1) = 5 ∧ ex_CS.2 = [("ff_d", "ff_q")].
+Proof. split; [|split]; apply (bool_decide_unpack _); vm_compute; reflexivity. Qed.
+Example C09_ex_seq_guards :
+  lint_clean ex_F ∧ closed ex_fg ∧ acyclic ex_fg ∧ flop_names_ok ex_F ∧ flop_wiring_ok ex_F "q" ∧
+  lint_clean ex_CS.1 ∧ c_bbs ex_CS.1 = ∅ ∧ closed (c_g ex_CS.1) ∧ acyclic (c_g ex_CS.1) ∧ plain (c_g ex_CS.1) ∧ valid_names (c_g ex_CS.1) ∧
+  free_are_inputs (c_g ex_CS.1) ∧ sio_ok (c_g ex_CS.1) ex_CS.2 ∧ unroll_names_ok (c_g ex_CS.1) 2 ex_CS.2 "cg_unroll".
+Proof.
+  split; [vm_compute; reflexivity|]. split; [apply closedb_spec; vm_compute; reflexivity|]. split; [apply acyclicb_sound; vm_compute; reflexivity|].
+  split; [apply (bool_decide_unpack _); vm_compute; reflexivity|]. split; [apply (bool_decide_unpack _); vm_compute; reflexivity|].
+  split; [vm_compute; reflexivity|]. split; [apply (bool_decide_unpack _); vm_compute; reflexivity|].
+  split; [apply closedb_spec; vm_compute; reflexivity|]. split; [apply acyclicb_sound; vm_compute; reflexivity|].
+  split; [|split; [|split; [|split]]].
+  - change (map_Forall (λ (_ : string) i, n_ty i ≠ BbIn ∧ n_ty i ≠ BbOut ∧ n_ty i ≠ Unsup ∧ n_ty i ≠ NoTy) (c_g ex_CS.1)).
+    apply (bool_decide_unpack _). vm_compute. reflexivity.
+  - change (set_Forall (λ n : string, n ≠ "" ∧ starts_digit n = false) (dom (c_g ex_CS.1))).
+    apply (bool_decide_unpack _). vm_compute. reflexivity.
+  - apply (bool_decide_unpack _). vm_compute. reflexivity.
+  - apply (bool_decide_unpack _). vm_compute. reflexivity.
+  - apply unroll_names_okb_spec. vm_compute. reflexivity.
+Qed.
+(* the flop circuit really runs: q0 = 0, a = 1 in both cycles: o = 1, then (q = 1) o = 0 *)
+Example C09_ex_flop_run : let ins := λ t i, bool_decide (i = "a") in
+  flop_run ex_F "d" "q" 0 (λ _, false) ins "o" = true ∧ flop_run ex_F "d" "q" 1 (λ _, false) ins "o" = false.
+Proof. split; vm_compute; reflexivity. Qed.
+
 (* --- non-vacuity: a toggle/accumulate machine  o = s xor a,  state s <- o, two steps --- *)
 Definition ex_c : circuit :=
   {[ "a" := mk_node Input false ∅ ]} ∪ {[ "s" := mk_node Input false ∅ ]} ∪ {[ "o" := mk_node Xor true {[ "a"; "s" ]} ]}.
